@@ -3,8 +3,8 @@
    LabelJson.v (label sets), SeriesIndex.v (request histories), Dates.v (days and time zones). *)
 From Coq Require Import List ZArith Bool String Permutation.
 From Qryn Require Import model.GoQuote model.LabelJson model.Fingerprint model.Labels
-  model.SeriesIndex model.ConfirmRule model.FlushRule model.Dates model.CacheKey model.GoJson model.DdTags model.ProtoLabels model.SeriesDoc model.TwoReaders
-  proofs.FingerprintProofs proofs.FingerprintInjProofs proofs.LabelsProofs proofs.JsonQuoteProofs proofs.LabelDocReaderProofs proofs.TwoReadersProofs proofs.ProtoLabelsProofs proofs.GoJsonProofs proofs.DdTagsProofs proofs.ProtoGuardProofs proofs.SeriesIndexProofs proofs.ConfirmRuleProofs proofs.FlushRuleProofs proofs.DiscoverProofs proofs.DiscoverWindowProofs proofs.DatesProofs proofs.CacheKeyProofs.
+  model.SeriesIndex model.ConfirmRule model.SharedInsert model.FlushRule model.Dates model.CacheKey model.GoJson model.DdTags model.ProtoLabels model.SeriesDoc model.TwoReaders
+  proofs.FingerprintProofs proofs.FingerprintInjProofs proofs.LabelsProofs proofs.JsonQuoteProofs proofs.LabelDocReaderProofs proofs.TwoReadersProofs proofs.ProtoLabelsProofs proofs.GoJsonProofs proofs.DdTagsProofs proofs.ProtoGuardProofs proofs.SeriesIndexProofs proofs.ConfirmRuleProofs proofs.SharedInsertProofs proofs.FlushRuleProofs proofs.DiscoverProofs proofs.DiscoverWindowProofs proofs.DatesProofs proofs.CacheKeyProofs.
 From Qryn Require model.Scans model.LogqlPlan model.SqlEval.
 Import ListNotations.
 Open Scope Z_scope.
@@ -336,6 +336,36 @@ Theorem confirmation_by_promise_position_refuted :
   exists h, r_all_indexed_typed (rrun rule_position rinit h) = false.
 Proof. exact (conj rule_position_not_sound (ex_intro _ w_position rule_position_loses_row)). Qed.
 Print Assumptions confirmation_by_promise_position_refuted.
+
+(* ROUND 6. Between doParse and ClickHouse sits the insert service (model/SharedInsert.v: InsertServiceV2.Request appends the rows
+   of a request to the PENDING buffer and, if it appended none, fulfils the promise at once, else lets it wait for the buffer; one
+   loop takes buffer + promises, sends ONE INSERT and gives its outcome to all of them; while the INSERT waits for ClickHouse
+   further requests fill the next buffer). The rows of several requests share an INSERT and its outcome. Whatever
+   processRequest appends ([app buf rows]), as long as (1) it appends nothing only for a request without rows and (2) afterwards
+   every row of the request is in the buffer its promise waits for: in EVERY history of arrivals (any streams, any samples
+   outcome), loop rounds, answers of ClickHouse (any outcome), cache resets and evictions, every acknowledged sample has the
+   series row of its day and type stored, and the announcement cache holds stored rows only. *)
+Theorem acked_sample_is_indexed_when_requests_share_an_insert : forall app,
+  sound_append app ->
+  forall h, s_all_indexed (srun app sinit h) = true /\ incl (s_cache (srun app sinit h)) (s_table (srun app sinit h)).
+Proof. exact shared_insert_indexed. Qed.
+Print Assumptions acked_sample_is_indexed_when_requests_share_an_insert.
+
+(* the hypothesis is met by the processRequest of the code (every row of the request is appended) and by a rule that is not
+   the code's (duplicates inside one request dropped): not vacuous *)
+Theorem process_request_of_the_code_is_sound :
+  sound_append append_all /\ sound_append append_nodup /\ forall h, s_all_indexed (srun append_all sinit h) = true.
+Proof. exact (conj append_all_sound (conj append_nodup_sound shared_insert_indexed_code)). Qed.
+Print Assumptions process_request_of_the_code_is_sound.
+
+(* Skipping a row that is already queued in the pending buffer (seeded change C04-f) is not sound, and the property fails: while
+   A's INSERT waits, B and C announce the same new series; C appends nothing, is answered 2xx at once and confirmed; the shared
+   INSERT fails: C's sample has no series row (and B's retry then hits the cache: SharedInsertProofs.w_shared_append_new_retry_hits_cache).
+   The check drives this history and 23 others of its kind through the real insert services on every run. *)
+Theorem skipping_queued_rows_refuted :
+  not (sound_append append_new) /\ exists h, s_all_indexed (srun append_new sinit h) = false.
+Proof. exact shared_insert_refuted_for_append_new. Qed.
+Print Assumptions skipping_queued_rows_refuted.
 
 (* The rule the code places the mid-request flushes with (model/FlushRule.v: len(message) + 26 per entry, 14 + len(labels text)
    per announced row, a chunk is sent when the sum exceeds 1 MiB, the rest when the body ends; tied to the real parser on bodies
